@@ -28,7 +28,64 @@ func runC14(c *mon.Ctx) {
 			return
 		}
 		c14Life(c, r)
+		if i%150 == 0 {
+			c14ManyStrings(c, r.Fork(77))
+		}
 	})
+}
+
+// c14ManyStrings: a long-lived reporter sees far more distinct names and tag
+// values than any of its caches and pools was sized for (here 70,000-140,000
+// distinct strings from 2-4 goroutines); Allocate, Report, Flush and Close
+// must still return.
+func c14ManyStrings(c *mon.Ctx, r *mon.Rand) {
+	opts := m3.Options{Service: "s", Env: "e", MaxQueueSize: 4096, HostPorts: []string{mon.DeadPort()}}
+	if r.Bool() {
+		opts.Protocol = m3.Binary
+	}
+	G := r.Range(2, 4)
+	per := r.Range(35000, 45000)
+	desc := map[string]interface{}{"scenario": "many distinct strings", "goroutines": G, "allocations_per_goroutine": per}
+	c.LogCase(fmt.Sprint(desc))
+	rep, err := m3.NewReporter(opts)
+	if err != nil {
+		c.Inconclusive("NewReporter: " + err.Error())
+		return
+	}
+	c.Eval(1)
+	stop := c.Watchdog(120*time.Second, "m3-call-does-not-return", desc)
+	defer stop()
+	var wg sync.WaitGroup
+	for g := 0; g < G; g++ {
+		wg.Add(1)
+		go func(g int) {
+			defer wg.Done()
+			c.Guard("panic-m3", func() interface{} { return desc }, func() {
+				for i := 0; i < per; i++ {
+					v := fmt.Sprintf("v%d-%d", g, i)
+					switch i % 3 {
+					case 0:
+						rep.AllocateCounter("many", map[string]string{"k": v}).ReportCount(1)
+					case 1:
+						rep.AllocateGauge("n"+v, map[string]string{"k": "v"}).ReportGauge(1)
+					default:
+						rep.AllocateTimer("many-t", map[string]string{v: "x"}).ReportTimer(time.Millisecond)
+					}
+				}
+			})
+		}(g)
+	}
+	wg.Wait()
+	c.Guard("panic-m3", func() interface{} { return desc }, func() {
+		rep.AllocateCounter("after", map[string]string{"one": "more"}).ReportCount(1)
+		rep.AllocateHistogram("after-h", map[string]string{"one": "more"}, tally.ValueBuckets{1, 2}).ValueBucket(1, 2).ReportSamples(1)
+		rep.Flush()
+		if err := rep.Close(); err != nil {
+			c.Violation("close-error", map[string]interface{}{"why": err.Error(), "case": desc})
+		}
+	})
+	c.Event("distinct-strings-interned", int64(G*per))
+	c.Distinct(mon.Hash64("many-strings", fmt.Sprint(G, per, opts.Protocol)))
 }
 
 func m3Goroutines() int {
@@ -64,6 +121,14 @@ func c14Life(c *mon.Ctx, r *mon.Rand) {
 	case "two-one-dead":
 		opts.HostPorts = []string{mon.DeadPort()}
 	}
+	// a quarter of the lifetimes: a packet limit of 1,500-2,500 bytes and one
+	// metric whose name alone is longer than that (it can only travel alone)
+	oversize := r.Chance(1, 4)
+	if oversize {
+		opts.MaxPacketSizeBytes = int32(r.Range(1500, 2500))
+		desc["max_packet"] = opts.MaxPacketSizeBytes
+		desc["a_metric_larger_than_a_packet"] = true
+	}
 	m3ViaConfiguration = r.Chance(1, 6) // build the reporter through m3.Configuration where the options allow it
 	defer func() { m3ViaConfiguration = false }()
 	env, err := newM3EnvPorts(nSinks, opts, inj.Hook, dest == "closed-mid-run")
@@ -83,6 +148,10 @@ func c14Life(c *mon.Ctx, r *mon.Rand) {
 	sharedBucket := hv.ValueBucket(1, 2)
 	hd := rep.AllocateHistogram("hd", nil, tally.DurationBuckets{time.Millisecond, time.Second})
 	sharedDBucket := hd.DurationBucket(time.Millisecond, time.Second)
+	var big tally.CachedCount
+	if oversize {
+		big = rep.AllocateCounter(strings.Repeat("n", 3000), map[string]string{"big": "1"})
+	}
 
 	var wg sync.WaitGroup
 	startClose := make(chan struct{})
@@ -121,7 +190,11 @@ func c14Life(c *mon.Ctx, r *mon.Rand) {
 							rep.AllocateCounter(fmt.Sprintf("dyn%d", pr.Intn(20)), map[string]string{"p": fmt.Sprint(p)}).ReportCount(1)
 						}
 					default:
-						hv.ValueBucket(2, 3).ReportSamples(1)
+						if big != nil && pr.Chance(1, 3) {
+							big.ReportCount(1)
+						} else {
+							hv.ValueBucket(2, 3).ReportSamples(1)
+						}
 					}
 					atomic.AddInt64(&produced, 1)
 					if closeEarly && i == perProd/2 && p == 0 {
